@@ -13,10 +13,17 @@ Lower(s) == CASE s = "ZLIB" -> "zlib" [] s = "Zstd" -> "zstd" [] s = "LZ4HC" -> 
 TName == /\ Is("Name")
          /\ IF Lower(Ev.s) \in DOMAIN NameId THEN Ev.ok /\ Ev.id = NameId[Lower(Ev.s)] /\ Ev.back = Lower(Ev.s) ELSE ~Ev.ok
          /\ UNCHANGED seen
+\* names as byte sequences (the harness tries every one-character neighbour of every name): ASCII letters fold, nothing else does
+NameB == (<<110, 111, 110, 101>> :> 0) @@ (<<115, 110, 97, 112, 112, 121>> :> 1) @@ (<<122, 108, 105, 98>> :> 2)
+         @@ (<<108, 122, 52>> :> 3) @@ (<<108, 122, 52, 104, 99>> :> 4) @@ (<<122, 115, 116, 100>> :> 5)
+LowerB(sb) == [i \in 1..Len(sb) |-> IF sb[i] \in 65..90 THEN sb[i] + 32 ELSE sb[i]]
+TNameB == /\ Is("NameB")
+          /\ IF LowerB(Ev.sb) \in DOMAIN NameB THEN Ev.ok /\ Ev.id = NameB[LowerB(Ev.sb)] ELSE ~Ev.ok
+          /\ UNCHANGED seen
 TToStr == Is("ToStr") /\ Ev.s \in DOMAIN NameId /\ NameId[Ev.s] = Ev.id /\ UNCHANGED seen
 TComp == /\ Is("Comp") /\ Ev.alg \in Algs /\ OutcomeOk(Ev.outcome, Ev.rt)
          /\ seen' = IF ~Ev.haslevel /\ Ev.n \in SmallLens THEN seen \cup {<<Ev.alg, Ev.class, Ev.n>>} ELSE seen
 TDone == Is("Done") /\ Required \subseteq seen /\ UNCHANGED seen
-TSpec == TInit /\ [][TName \/ TToStr \/ TComp \/ TDone]_tv
+TSpec == TInit /\ [][TName \/ TNameB \/ TToStr \/ TComp \/ TDone]_tv
 Accepted == TLCGet("stats").diameter - 1 = Len(Tr)
 ====
